@@ -26,7 +26,9 @@ for d in sorted(os.listdir(os.path.join(V, "seeded"))):
     for k, v in sorted(meta.get("verdicts", {}).items()):
         kinds = sorted({re.sub(r"^\s*\[\w+\]\s*", "", l).split(":")[0] for l in v["lines"] if l.startswith("  [")})
         verdict.append(f"{k.split('@')[0]}: exit {v['exit']}" + (f" ({', '.join(kinds)[:80]})" if kinds else ""))
-    reported = ", ".join(meta.get("caught_by", [])) or ({"superseded": "superseded (see meta.json)", "rejected": "rejected: not a violation (see meta.json)"}.get(meta.get("status"), "MISSED"))
+    special = {"superseded": "superseded (see meta.json)", "rejected": "rejected: not a violation (see meta.json)"}.get(meta.get("status"))
+    reported = special + (" - on its own base tree reported by " + ", ".join(meta["caught_by"]) if special and meta.get("caught_by") else "") if special \
+        else (", ".join(meta.get("caught_by", [])) or "MISSED")
     rows.append((d, meta["property"], ", ".join(files), needs, reported, "; ".join(verdict)))
 
 with open(os.path.join(V, "seeded", "README.md"), "w") as f:
